@@ -1230,6 +1230,32 @@ fn get_nonterminals_resolution_order(
         debug_assert!(path.is_empty());
     }
 
+    // Whatever hasn't been reached from a not-depended-on nonterminal is either a part of a
+    // dependency cycle or depends on one.
+    let unreached: Vec<Ustr> = dependency_graph
+        .keys()
+        .filter(|vertex| !visited.contains(*vertex))
+        .copied()
+        .collect();
+    for vertex in unreached {
+        if visited.contains(&vertex) {
+            continue;
+        }
+        path.push((
+            vertex,
+            nonterminal_definitions.get(&vertex).unwrap().lhs_span,
+        ));
+        traverse_nonterminal_dependencies_dfs(
+            vertex,
+            &dependency_graph,
+            &mut path,
+            &mut visited,
+            &mut result,
+        )?;
+        path.clear();
+        result.push(vertex);
+    }
+
     // Filter out nonterminals that don't depend on any other as they are already fully resolved.
     result.retain(|vertex| {
         dependency_graph
